@@ -113,7 +113,7 @@ fn c05_generate(ctx: &mut Ctx) {
 fn c05_exec(toks: &[&str]) -> String {
     match toks.first() {
         Some(&"crlx") => c05b::exec(toks),
-        Some(&"roax") | Some(&"road") | Some(&"aspax") | Some(&"aspad") => c05::exec_codec(toks),
+        Some(&"roax") | Some(&"road") | Some(&"aspax") | Some(&"aspaxa") | Some(&"aspad") => c05::exec_codec(toks),
         _ => c05::exec(toks),
     }
 }
